@@ -11,6 +11,7 @@ import (
 	"strconv"
 	"strings"
 	"sync"
+	"sync/atomic"
 	"testing/synctest"
 	"time"
 )
@@ -409,9 +410,15 @@ func (s *Sched) collect() []Event {
 
 // Run steps the simulation until done() holds, a violation is recorded, the
 // system deadlocks, or the step cap is hit.
+// Progress counts scheduler iterations of the whole process; a monitor outside the bubble watches it
+// (a goroutine blocked on a sync.Mutex is never quiescent: the bubble would wait for ever).
+var Progress atomic.Int64
+
 func (s *Sched) Run(done func() bool) RunResult {
 	for {
+		Progress.Add(1)
 		synctest.Wait()
+		Progress.Add(1)
 		if s.ep.Failed() {
 			return RunViolation
 		}
